@@ -249,7 +249,7 @@ Section Fifo.
           split; [apply (sublist_drop_carried _ _ (mid m)); exact Hsub|].
           split; [apply H5ns; unfold J5 in H5; cbn [carried] in H5; inversion H5; assumption|apply Hns]. }
         destruct Hdrop as (D1 & D2 & D3).
-        destruct (fbon s); inversion Hstep; subst; clear Hstep;
+        destruct (fbon s && negb (is_exit_beh (mbeh m))); inversion Hstep; subst; clear Hstep;
           (split; [exact D1|]; split; [exact H3|]; split; [exact D2|]; split; [exact D3|exact Hnp]).
       * inversion Hstep; subst; clear Hstep.
       assert (H5t : Forall (fun m => fid (mid m) = true -> qidx (mq m) = k) todo) by (unfold J5 in H5; cbn [carried] in H5; inversion H5; assumption).
